@@ -202,7 +202,9 @@ func signed(e int, r *Rand) string {
 // rounding boundary, through exactly that table row.
 func W6Rows(perRow int, seed int64, sink Sink, keep ...func(int) bool) {
 	c := &h.Case{Family: "W6b"}
-	c.DescFn = func(c *h.Case) string { return fmt.Sprintf("row e=%d case %d (decimal just below/above a float midpoint)", c.P[0], c.P[1]) }
+	c.DescFn = func(c *h.Case) string {
+		return fmt.Sprintf("row e=%d case %d (decimal just below/above a float midpoint)", c.P[0], c.P[1])
+	}
 	for e := -348; e <= 347; e++ {
 		if len(keep) > 0 && keep[0] != nil && !keep[0](e+348) {
 			continue
